@@ -1480,12 +1480,12 @@ Definition error_text (v : value) : string :=
 
 Definition run_block (fuel : nat) (b : block) : outcome :=
   match exec_block fuel PLeaf [] b init_state with
-  | ROk (_, SigBreak) st => mkOutcome (rev (s_out st)) (FError "break outside a loop")
-  | ROk (_, SigGoto l) st => mkOutcome (rev (s_out st)) (FError ("no visible label '" ++ l ++ "' for goto"))
-  | ROk _ st => mkOutcome (rev (s_out st)) FDone
-  | RErr v st => mkOutcome (rev (s_out st)) (FError (error_text v))
-  | RFuel st => mkOutcome (rev (s_out st)) FOutOfFuel
-  | RUnsup w st => mkOutcome (rev (s_out st)) (FUnsupported w)
+  | ROk (_, SigBreak) st => mkOutcome (rev' (s_out st)) (FError "break outside a loop")
+  | ROk (_, SigGoto l) st => mkOutcome (rev' (s_out st)) (FError ("no visible label '" ++ l ++ "' for goto"))
+  | ROk _ st => mkOutcome (rev' (s_out st)) FDone
+  | RErr v st => mkOutcome (rev' (s_out st)) (FError (error_text v))
+  | RFuel st => mkOutcome (rev' (s_out st)) FOutOfFuel
+  | RUnsup w st => mkOutcome (rev' (s_out st)) (FUnsupported w)
   end.
 
 Definition run (fuel : nat) (src : string) : outcome :=
